@@ -204,9 +204,32 @@ def majority(rng):
     return _finish(rng, n, 1, [], [], lines)
 
 
+def crossover(rng, undeclared=False):
+    """two candidates whose tallies cross over at earlier stages and then tie (Scottish prior-stage tie-breaks at depth >= 2):
+    X starts d behind Y, an early exclusion hands X p > d votes, a later one hands Y exactly p - d"""
+    nbig = rng.randint(1, 2)
+    n = nbig + 4 + rng.randint(0, 1)
+    ids = list(range(1, n + 1)); rng.shuffle(ids)
+    big, (X, Y, Pc, Qc), extra = ids[:nbig], ids[nbig:nbig + 4], ids[nbig + 4:]
+    d = rng.randint(1, 2); e = rng.randint(1, 3); p = d + e          # P -> X : p votes ; Q -> Y : p - d = e votes
+    q = p + rng.randint(1, 2)                                         # Q is excluded after P
+    x0 = q + rng.randint(1, 3)
+    lines = [(x0, [X]), (x0 + d, [Y]), (p, [Pc, X]), (e, [Qc, Y])]
+    if q - e > 0:
+        lines.append((q - e, [Qc, big[0]]))
+    tot_small = 2 * x0 + d + p + q
+    for b in big:
+        lines.append((tot_small + rng.randint(0, 3), [b]))
+    for c in extra:
+        lines.append((rng.randint(0, 1) or 1, [c, rng.choice([X, Y])]) if rng.random() < 0.3 else (1, [c]))
+    rng.shuffle(lines)
+    s = rng.randint(1, max(1, nbig))
+    return _finish(rng, n, s, [], [], lines)
+
+
 FAMILIES = {
     'plain': plain, 'on_quota': on_quota, 'symmetric': symmetric, 'few_supported': few_supported,
-    'chains': chains, 'sure_losers': sure_losers, 'big': big,
+    'chains': chains, 'sure_losers': sure_losers, 'big': big, 'crossover': crossover,
 }
 
 
